@@ -12,7 +12,9 @@ def tie_applicable(p, exact):
     Average/Deviate below a vectorised fill (their batch formulas round differently even on data
     for which the row-by-row recurrences are exact)"""
     spec = p["ops"][0][1]
-    return exact and not base.has_kind(spec, ["Average", "Deviate"])
+    # exact-safe certifies the ROW order of the arithmetic only; numpy sums a batch first and in
+    # another order, which is exact as well only when every value is a small dyadic by construction
+    return exact and bool(p.get("meta", {}).get("dyadic")) and not base.has_kind(spec, ["Average", "Deviate"])
 NO_SHRINK = True      # a batch and its row-by-row twin must be dropped together
 Machine = hgm.FcnMachine
 
@@ -78,7 +80,7 @@ def gen_one(r, i, tier):
                 q["name"] = hgm.expr_rec(q["e"], "names")
     form = r.choice(["dict", "dict", "rec"])
     ops = [("new", spec), ("new", spec)]
-    meta = {"batches": [], "input": form}
+    meta = {"batches": [], "input": form, "dyadic": dyadic}
     for b in range(3 if fast else r.randint(1, 3)):
         n = r.choice([0, 1, 2, r.randint(3, 10), r.randint(3, 10)])
         rows = [d for d, _ in (base.small_stream(r, spec, n, [1.0], cats=CATS) if dyadic
